@@ -48,8 +48,8 @@ multisec_regex = re.compile(
                                         # to keep matching multisec to the right!
 
         ({no_num_sec_regex.pattern}     # The word or abbreviation "Section" (optional)
-        (?P<plural_rightmost>s)?
-        \.?\s*)?                        # (Period / whitespace after that word only if it is there.)
+        ((?P<plural_rightmost>s)\.?)?   # (A plural abbreviation may end in a period: 'Secs.')
+        \s*)?                           # (Whitespace after that word only if it is there.)
         (?P<secnum_rightmost>\d{{1,3}})  # Rightmost section number (1 to 3 digits)
     )*   # Will go to here for multi-sections
     (?P<colon>\s*:)?    # Capture an optional colon at end.
